@@ -681,8 +681,27 @@ def selftest_tile(report):
         r["r"] = [(x + 7) % 46000 for x in r["r"]]
         gs[2].append(r)
         return "depends on the order"
+    def cor_face(gs):               # the area vector of one face, seen from one side only
+        for g in gs:
+            for r in g:
+                if r["f"]:
+                    r["f"][0]["av"] = [[(x + 1) % 46000 for x in v] for v in r["f"][0]["av"]]
+                    return "no mirror face"
+    def cor_face_drop(gs):          # a face listed by one cell only
+        for g in gs:
+            for r in g:
+                if len(r["f"]) >= 1 and len(g[0]["gens"]) >= 2:
+                    r["f"] = r["f"][1:]
+                    return "no mirror face"
+    def cor_centroid(gs):
+        for g in gs:
+            for r in g:
+                if r["f"]:
+                    r["f"][0]["a1"] = [[(x + 3) % 46000 for x in v] for v in r["f"][0]["a1"]]
+                    return "no mirror face"
     for name, fn in [("volume of one cell changed by one unit", cor_residue), ("one cell of an input missing", cor_drop),
-                     ("a second finished state of a cell with another volume", cor_order)]:
+                     ("a second finished state of a cell with another volume", cor_order), ("area vector of a face changed on one side", cor_face),
+                     ("a face listed by one of its two cells only", cor_face_drop), ("centroid of a face changed on one side", cor_centroid)]:
         gs = copy.deepcopy(base)
         expect = fn(gs)
         v = run(gs)
